@@ -163,7 +163,9 @@ def cli_literals(repo, build, log, only=None):
     for lit, exp, ok in [('1.5', '1.5', True), ('3.4028235e38', f32max, True), ('-3.4028235e38', '-' + f32max, True), ('3.40282356e38', f32max, True),
                          ('3.4028236e38', None, False), ('3.5e38', None, False), ('1e39', None, False), ('-1e39', None, False), ('1.0e-50', '0', True), ('16777217.0', '16777216', True)]:
         cases.append(('Float32', 'float32', lit, exp, ok, False))
-    for lit, exp, ok in [('1.5', '1.5', True), ('1e308', None, True), ('0.1', '0.1', True)]:
+    for lit, exp, ok in [('-1e3', '-1000', True), ('+1e3', '1000', True), ('1e3', '1000', True), ('-5e-1', '-0.5', True), ('-2E+2', '-200', True), ('-2.5e1', '-25', True)]:
+        cases.append(('Float32', 'float32', lit, exp, ok, False))
+    for lit, exp, ok in [('1.5', '1.5', True), ('1e308', None, True), ('0.1', '0.1', True), ('-1e3', '-1000', True), ('+1e3', '1000', True), ('-5e-1', '-0.5', True)]:
         cases.append(('Float64', 'float64', lit, exp, ok, False))
     for (tname, pkg, lit, exp, ok, synth) in cases:
         if only and only != f'{pkg}:{lit}:{int(synth)}':
